@@ -656,3 +656,235 @@ func (s *Sched) Summary() string {
 	}
 	return fmt.Sprint(kinds)
 }
+
+// ---------------------------------------------------------------------------------------------
+// the rest of the primitives a change to morlock might plausibly start using
+
+func (b *AtomicBool) Swap(x bool) bool {
+	point(&op{kind: "aswap", enabled: alwaysEnabled, obj: uintptr(unsafe.Pointer(b))})
+	return b.v.Swap(x)
+}
+
+func (b *AtomicUint64) Swap(x uint64) uint64 {
+	point(&op{kind: "aswap", enabled: alwaysEnabled, obj: uintptr(unsafe.Pointer(b))})
+	return b.v.Swap(x)
+}
+
+func (b *AtomicUint64) CompareAndSwap(o, n uint64) bool {
+	point(&op{kind: "acas", enabled: alwaysEnabled, obj: uintptr(unsafe.Pointer(b))})
+	return b.v.CompareAndSwap(o, n)
+}
+
+type AtomicInt64 struct{ v atomic.Int64 }
+
+func (b *AtomicInt64) Load() int64 {
+	point(&op{kind: "aload", enabled: alwaysEnabled, obj: uintptr(unsafe.Pointer(b))})
+	return b.v.Load()
+}
+func (b *AtomicInt64) Store(x int64) {
+	point(&op{kind: "astore", enabled: alwaysEnabled, obj: uintptr(unsafe.Pointer(b))})
+	b.v.Store(x)
+}
+func (b *AtomicInt64) Add(x int64) int64 {
+	point(&op{kind: "aadd", enabled: alwaysEnabled, obj: uintptr(unsafe.Pointer(b))})
+	return b.v.Add(x)
+}
+func (b *AtomicInt64) Swap(x int64) int64 {
+	point(&op{kind: "aswap", enabled: alwaysEnabled, obj: uintptr(unsafe.Pointer(b))})
+	return b.v.Swap(x)
+}
+func (b *AtomicInt64) CompareAndSwap(o, n int64) bool {
+	point(&op{kind: "acas", enabled: alwaysEnabled, obj: uintptr(unsafe.Pointer(b))})
+	return b.v.CompareAndSwap(o, n)
+}
+
+type AtomicInt32 struct{ v atomic.Int32 }
+
+func (b *AtomicInt32) Load() int32 {
+	point(&op{kind: "aload", enabled: alwaysEnabled, obj: uintptr(unsafe.Pointer(b))})
+	return b.v.Load()
+}
+func (b *AtomicInt32) Store(x int32) {
+	point(&op{kind: "astore", enabled: alwaysEnabled, obj: uintptr(unsafe.Pointer(b))})
+	b.v.Store(x)
+}
+func (b *AtomicInt32) Add(x int32) int32 {
+	point(&op{kind: "aadd", enabled: alwaysEnabled, obj: uintptr(unsafe.Pointer(b))})
+	return b.v.Add(x)
+}
+func (b *AtomicInt32) Swap(x int32) int32 {
+	point(&op{kind: "aswap", enabled: alwaysEnabled, obj: uintptr(unsafe.Pointer(b))})
+	return b.v.Swap(x)
+}
+func (b *AtomicInt32) CompareAndSwap(o, n int32) bool {
+	point(&op{kind: "acas", enabled: alwaysEnabled, obj: uintptr(unsafe.Pointer(b))})
+	return b.v.CompareAndSwap(o, n)
+}
+
+type AtomicUint32 struct{ v atomic.Uint32 }
+
+func (b *AtomicUint32) Load() uint32 {
+	point(&op{kind: "aload", enabled: alwaysEnabled, obj: uintptr(unsafe.Pointer(b))})
+	return b.v.Load()
+}
+func (b *AtomicUint32) Store(x uint32) {
+	point(&op{kind: "astore", enabled: alwaysEnabled, obj: uintptr(unsafe.Pointer(b))})
+	b.v.Store(x)
+}
+func (b *AtomicUint32) Add(x uint32) uint32 {
+	point(&op{kind: "aadd", enabled: alwaysEnabled, obj: uintptr(unsafe.Pointer(b))})
+	return b.v.Add(x)
+}
+func (b *AtomicUint32) Swap(x uint32) uint32 {
+	point(&op{kind: "aswap", enabled: alwaysEnabled, obj: uintptr(unsafe.Pointer(b))})
+	return b.v.Swap(x)
+}
+func (b *AtomicUint32) CompareAndSwap(o, n uint32) bool {
+	point(&op{kind: "acas", enabled: alwaysEnabled, obj: uintptr(unsafe.Pointer(b))})
+	return b.v.CompareAndSwap(o, n)
+}
+
+// AtomicPointer mirrors atomic.Pointer[T].
+type AtomicPointer[T any] struct{ v atomic.Pointer[T] }
+
+func (p *AtomicPointer[T]) Load() *T {
+	point(&op{kind: "pload", enabled: alwaysEnabled, obj: uintptr(unsafe.Pointer(p))})
+	return p.v.Load()
+}
+func (p *AtomicPointer[T]) Store(x *T) {
+	point(&op{kind: "pstore", enabled: alwaysEnabled, obj: uintptr(unsafe.Pointer(p))})
+	p.v.Store(x)
+}
+func (p *AtomicPointer[T]) Swap(x *T) *T {
+	point(&op{kind: "pswap", enabled: alwaysEnabled, obj: uintptr(unsafe.Pointer(p))})
+	return p.v.Swap(x)
+}
+func (p *AtomicPointer[T]) CompareAndSwap(o, n *T) bool {
+	point(&op{kind: "pcas", enabled: alwaysEnabled, obj: uintptr(unsafe.Pointer(p))})
+	return p.v.CompareAndSwap(o, n)
+}
+
+func SwapPointer(addr *unsafe.Pointer, n unsafe.Pointer) unsafe.Pointer {
+	point(&op{kind: "pswap", enabled: alwaysEnabled, obj: uintptr(unsafe.Pointer(addr))})
+	return atomic.SwapPointer(addr, n)
+}
+
+func CompareAndSwapUint64(addr *uint64, o, n uint64) bool {
+	point(&op{kind: "acas", enabled: alwaysEnabled, obj: uintptr(unsafe.Pointer(addr))})
+	return atomic.CompareAndSwapUint64(addr, o, n)
+}
+
+func (m *Mutex) TryLock() bool {
+	if S == nil {
+		return m.real.TryLock()
+	}
+	point(&op{kind: "trylock", enabled: alwaysEnabled, obj: uintptr(unsafe.Pointer(m))})
+	if m.locked {
+		return false
+	}
+	m.locked = true
+	return true
+}
+
+// RWMutex: writers exclude everybody, readers exclude writers.
+type RWMutex struct {
+	real    sync.RWMutex
+	writer  bool
+	readers int
+}
+
+func (m *RWMutex) Lock() {
+	if S == nil {
+		m.real.Lock()
+		return
+	}
+	point(&op{kind: "lock", enabled: func() bool { return !m.writer && m.readers == 0 }, obj: uintptr(unsafe.Pointer(m))})
+	m.writer = true
+}
+func (m *RWMutex) Unlock() {
+	if S == nil {
+		m.real.Unlock()
+		return
+	}
+	point(&op{kind: "unlock", enabled: alwaysEnabled, obj: uintptr(unsafe.Pointer(m))})
+	m.writer = false
+}
+func (m *RWMutex) RLock() {
+	if S == nil {
+		m.real.RLock()
+		return
+	}
+	point(&op{kind: "rlock", enabled: func() bool { return !m.writer }, obj: uintptr(unsafe.Pointer(m))})
+	m.readers++
+}
+func (m *RWMutex) RUnlock() {
+	if S == nil {
+		m.real.RUnlock()
+		return
+	}
+	point(&op{kind: "runlock", enabled: alwaysEnabled, obj: uintptr(unsafe.Pointer(m))})
+	m.readers--
+}
+
+type WaitGroup struct {
+	real sync.WaitGroup
+	n    int
+}
+
+func (w *WaitGroup) Add(d int) {
+	if S == nil {
+		w.real.Add(d)
+		return
+	}
+	point(&op{kind: "wg-add", enabled: alwaysEnabled, obj: uintptr(unsafe.Pointer(w))})
+	w.n += d
+	if w.n < 0 {
+		panic("sync: negative WaitGroup counter")
+	}
+}
+func (w *WaitGroup) Done() { w.Add(-1) }
+func (w *WaitGroup) Wait() {
+	if S == nil {
+		w.real.Wait()
+		return
+	}
+	point(&op{kind: "wg-wait", enabled: func() bool { return w.n == 0 }, obj: uintptr(unsafe.Pointer(w))})
+}
+
+type Once struct {
+	real sync.Once
+	m    Mutex
+	done bool
+}
+
+func (o *Once) Do(f func()) {
+	if S == nil {
+		o.real.Do(f)
+		return
+	}
+	o.m.Lock()
+	defer o.m.Unlock()
+	if !o.done {
+		defer func() { o.done = true }()
+		f()
+	}
+}
+
+// Sleep: time passes, which other threads may use.
+func Sleep(d time.Duration) {
+	if S == nil {
+		time.Sleep(d)
+		return
+	}
+	point(&op{kind: "sleep", enabled: alwaysEnabled})
+}
+
+// After returns a channel that a timer thread sends on once it may fire.
+func After(d time.Duration) <-chan time.Time {
+	if S == nil {
+		return time.After(d)
+	}
+	ch := make(chan time.Time, 1)
+	AfterFunc(d, func() { ch <- Now() })
+	return ch
+}
